@@ -108,6 +108,12 @@ Definition s_step (o : op) (s : sstate) : res * sstate :=
   | Items => (RPairs (s_items s), s)
   | Len => (RNat (length (s_map s)), s)
   | Update l => (RUnit, s_update l s)
+  | PopItem => match s_map s with
+               | [] => (RErr EKey, s)
+               | (k, vs) :: m' => (RPairs [(k, join [c_comma] vs)], mkS m' (s_last s))
+               end
+  | Clear => (RUnit, mkS [] (s_last s))
+  | Values => (RList (map snd (s_items s)), s)
   end.
 
 Fixpoint s_fold (f : text -> sstate -> res * sstate) (ls : list text) (s : sstate) : res * sstate :=
